@@ -234,6 +234,7 @@ def pairs(tier):
          {"kind": "benchmark", "name": "small-gen-rgoal", "seed": None, "np_seed_before": 5}),
         ("generate_same_params_other_seed", {"kind": "generate", "params": {"num_hosts": 5, "num_services": 2, "seed": 1, "exploit_probs": 0.5}},
          {"kind": "generate", "params": {"num_hosts": 5, "num_services": 2, "seed": 4, "exploit_probs": 0.5}}),
+        ("small_twice_8_hosts", {"kind": "shipped", "name": "small", "peek": True}, {"kind": "shipped", "name": "small", "peek": True}),
         ("different_layout_tiny_vs_small", {"kind": "shipped", "name": "tiny"}, {"kind": "shipped", "name": "small"}),
         ("different_layout_reversed_services", _yaml_desc(s1), _yaml_desc(rev)),
     ]
